@@ -758,12 +758,12 @@ def run(tier: str, replay: str | None = None):
         cases = [{"overloads": c["overloads"], "calls": [c["call"]] if "call" in c else c["calls"], "family": "replay"}]
     else:
         cases = [dict(c, family="corpus") for c in load_corpus()]
-        n_sets = 420 if tier == "quick" else 6000
+        n_sets = 1500 if tier == "quick" else 12000
         for _ in range(n_sets):
             cases.append(gen_case(rng, 8))
 
     # 3. implementation (end to end + primitives), in worker processes
-    chunk = 20 if tier == "quick" else 40
+    chunk = 25 if tier == "quick" else 50
     payloads = [(i, cases[i : i + chunk]) for i in range(0, len(cases), chunk)]
     results = {}
     stray = []
@@ -809,7 +809,7 @@ def run(tier: str, replay: str | None = None):
     known = []
     corr = []
     acc_mismatch = []
-    hist = {"mode": {}, "impl_verdict": {}, "family": {}, "n_overloads": {}, "binding_overloads": {}, "oracle_verdict": {}}
+    hist = {"mode": {}, "impl_verdict": {}, "family": {}, "n_overloads": {}, "binding_overloads": {}, "oracle_verdict": {}, "result_types": {}}
     distinct = set()
     n_eval = 0
     samples = []
@@ -842,6 +842,10 @@ def run(tier: str, replay: str | None = None):
                 continue
             # per-parameter acceptance: oracle table vs can_assign (validates the oracle's vocabulary table)
             prim = res["prim"]
+            if prim is not None:
+                bump("binding_overloads", sum(1 for sg in prim if sg["binds"]))
+            if obs[0] == "Types":
+                bump("result_types", f"{mode}:{len(obs[1])}")
             if prim is not None and not star:
                 for ov, sg in zip(case["overloads"], prim):
                     b = py_bind(ov["params"], len(call["pos"]), [k for k, _ in call["kw"]])
@@ -853,6 +857,13 @@ def run(tier: str, replay: str | None = None):
                     byarg = {}
                     for bp in sg["params"]:
                         byarg.setdefault(bp["arg"], []).append(bp)
+                    # hypotheses of the one-union theorems, checked on every instantiation
+                    if any(len(v) > 1 for v in byarg.values()):
+                        acc_mismatch.append((ci, ki, "binds_once", ov, None, [b["param"] for v in byarg.values() if len(v) > 1 for b in v]))
+                    for pi, ai in b:
+                        for bp in byarg.get(ai, []):
+                            if bp["dec"] != (ov["params"][pi]["kind"] not in ("va", "vk")):
+                                acc_mismatch.append((ci, ki, "decomposable", ov["params"][pi], ai, bp["dec"]))
                     for pi, ai in b:
                         bp = [x for x in byarg.get(ai, []) if x["param"] == ov["params"][pi]["name"]]
                         if len(bp) != 1:
